@@ -210,6 +210,19 @@ def random_oplists(pid, rng, n):
                                  "u": amb, "ps": [], "us": [], "pat": None})
             ex = extra_probes(rng, recs, delim, upool)
             ops.append({"k": "new", "recs": recs, "delim": delim, "extra": ex})
+            if rng.random() < 0.45:
+                # query -> mutate -> query: incremental steps interleaved with the probe tables
+                _, upool2, ppool2 = strict_set(rng, delim, 2)
+                for _ in range(rng.randrange(1, 4)):
+                    r = rand_record(rng, delim, upool + upool2, ppool2, maxsyn=1)
+                    if rng.random() < 0.3 and recs:
+                        v = rng.choice(recs)
+                        r["p"] = v["p"] if rng.random() < 0.5 else r["p"]
+                        r["u"] = v["u"] if r["p"] != v["p"] or rng.random() < 0.5 else r["u"]
+                        r["ps"] = [x for x in r["ps"] if x != r["p"]]
+                        r["us"] = [x for x in r["us"] if x != r["u"]]
+                    ops.append({"k": "add", "i": 1, "rec": r, "cs": rng.random() < 0.8, "mg": rng.random() < 0.7, "via": "record",
+                                "extra": extra_probes(rng, [r], delim, upool, 6)})
             if pid == "C01" and len(recs) >= 2:
                 sh = list(recs)
                 rng.shuffle(sh)
@@ -426,7 +439,10 @@ def check(pid, tier, seed):
     fails, st = tlc.validate_traces(batch, timeout=sz["tr_timeout"])
     mine, other = {}, {}
     for tid, l, clause in fails:
-        if pid in clause_tags(clause):
+        tags = clause_tags(clause)
+        if pid == "C05" and clause[0] == "ans":
+            tags = tags | {"C05"}      # after add steps every answer must be the one a fresh converter gives
+        if pid in tags:
             mine.setdefault((tid, l), []).append(clause)
         else:
             other["/".join(clause)] = other.get("/".join(clause), 0) + 1
